@@ -126,6 +126,7 @@ type c01Named struct {
 type c01Plan struct {
 	keySeeds  int // how many seeds of the alphabet (0 = all)
 	flipMode  int // 0 = every bit, 1 = verifmc.BitPositions sub-alphabet (first/last 64 bytes + bit 0 of every 64th byte), 2 = bit 0 of every 64th byte
+	fullSeeds int // key seeds below this index get every bit whatever flipMode says
 	slices    int // parallel work items per (scheme, key seed)
 	detEvery  int // the restored-key second call is made on every detEvery-th flip (always on the other alterations)
 	zEvery    int // the z-variant key is asked on every zEvery-th flip
@@ -143,7 +144,7 @@ func c01PlanFor(r *verifmc.Run, s *c01Scheme) c01Plan {
 	case r.Thorough() && def:
 		p := c01Plan{keySeeds: 0, slices: 8, detEvery: 1, zEvery: 1, fullEvery: 61, pairs: 2}
 		if frodo {
-			p = c01Plan{keySeeds: 2, slices: 96, detEvery: 16, zEvery: 16, pairs: 1}
+			p = c01Plan{keySeeds: 2, flipMode: 1, fullSeeds: 1, slices: 96, detEvery: 16, zEvery: 16, pairs: 1}
 		}
 		return p
 	case r.Thorough() || def: // thorough in the other configurations = quick in the default one
@@ -190,7 +191,7 @@ func TestVerifC01_tamper(t *testing.T) {
 			for ki := range ks {
 				jobs = append(jobs, job{s, ki, plan})
 			}
-			plans[s.tag] = map[string]int{"key_seeds": len(ks), "flip_mode": plan.flipMode, "restored_key_every": plan.detEvery,
+			plans[s.tag] = map[string]int{"key_seeds": len(ks), "flip_mode": plan.flipMode, "key_seeds_with_every_bit": plan.fullSeeds, "restored_key_every": plan.detEvery,
 				"z_variant_every": plan.zEvery, "pairs": plan.pairs}
 			if plan.keySeeds != 0 || plan.flipMode != 0 || plan.pairs != 2 {
 				exhaustive = false
@@ -490,8 +491,12 @@ func c01TamperRun(r *verifmc.Run, b *c01TamperBase, slice int) {
 
 	// ---- level 1
 	var bits []int
-	full := b.plan.flipMode == 0
-	switch b.plan.flipMode {
+	mode := b.plan.flipMode
+	if b.ki < b.plan.fullSeeds {
+		mode = 0
+	}
+	full := mode == 0
+	switch mode {
 	case 0:
 		bits, _ = verifmc.BitPositions(n, n, 1)
 	case 1:
